@@ -159,7 +159,12 @@ impl Prop for PExec {
             }
             tree.push(json!({"parent": parent, "name": str_to_json(&name), "kind": kind, "target": 0}));
         }
-        let spell = if rng.chance(1, 3) { "./d" } else { "d" };
+        let spell = match rng.below(6) {
+            0 | 1 => "./d",
+            // "." is a component like any other: the entry d/. is "." in d
+            2 => "d/.",
+            _ => "d",
+        };
         let mut roots = vec![json!({"spell": str_to_json(spell), "node": 1})];
         if rng.chance(1, 5) {
             roots.push(json!({"spell": str_to_json("d"), "node": 1}));
